@@ -311,6 +311,8 @@ R4_RULES = [
     ('R4-sort', r'(?P<e>\b[a-z_][A-Za-z0-9_]*)\s*\.\s*sort\s*\(\s*\)', r'vx_sort(&mut \g<e>)', None),
     ('R4-addr-collect', r'\.\s*into_iter\s*\(\s*\)\s*\.\s*map\s*\(\s*\|\s*\(\s*_\s*,\s*x\s*\)\s*\|\s*x\s*\)\s*\.\s*collect\s*\(\s*\)',
      r'.vx_second_collect()', None),
+    ('R4-chain3', r'(?P<a>\w+)\s*\.\s*payload\s*\.\s*iter\(\)\s*\.\s*cloned\(\)\s*\.\s*chain\(\s*(?P<b>\w+)\.payload\.iter\(\)\.cloned\(\)\s*\)\s*\.\s*chain\(\s*(?P<c>\w+)\.payload\.iter\(\)\.cloned\(\)\s*\)\s*\.\s*collect\(\)',
+     r'vx_chain3_collect(&\g<a>.payload, &\g<b>.payload, &\g<c>.payload)', None),
     ('R4-retain-ge', r'\.\s*retain\s*\(\s*\|\s*k\s*,\s*_\s*\|\s*k\s*>=\s*(?P<r>\w+)\s*\)', r'.vx_retain_keys_ge(\g<r>)', None),
     ('R4-get-map-or-else-stake', r'(?P<e>%s)\s*\.\s*get\s*\(\s*(?P<k>\w+)\s*\)\s*\.\s*map_or_else\s*\(\s*\|\s*\|\s*0\s*,\s*\|\s*x\s*\|\s*x\s*\.\s*stake\s*\)' % _E,
      r'(match \g<e>.get(\g<k>) { None => 0, Some(x) => x.stake })', None),
